@@ -490,4 +490,26 @@ theorem hasTime_of_mem (K : Knots) (k : Rat × Rat) (hk : k ∈ K) : hasTime K k
   exact ⟨k, hk, by simp⟩
 
 
+/-! ### negated constant inputs; `sequence` -/
+
+theorem ciStateAt_neg (c : CIn) (t : Rat) (extrap : Bool) :
+    ciStateAt c true t extrap = (ciStateAt c false t extrap).neg := by
+  unfold ciStateAt
+  simp only [if_true, Bool.false_eq_true, if_false]
+  rw [Res.neg_eq_scale, negKnots_eq_scale, firstVal_scaleKnots, lastVal_scaleKnots]
+  cases extrap
+  · simpa using interpScalar_scale (-1) c.mode c.series nanFill nanFill t
+  · simpa using interpScalar_scale (-1) c.mode c.series (finFill (firstVal c.series)) (finFill (lastVal c.series)) t
+
+theorem sequence_eq_some (l : List Out) (xs : List XVal) (h : sequence l = some xs) : l = xs.map Out.val := by
+  induction l generalizing xs with
+  | nil => simp [sequence] at h; subst h; rfl
+  | cons a l ih =>
+    cases a with
+    | raise => simp [sequence] at h
+    | val v =>
+      simp only [sequence, Option.map_eq_some_iff] at h
+      obtain ⟨ys, hys, rfl⟩ := h
+      rw [ih ys hys]; rfl
+
 end RtcVerif.C15
